@@ -63,9 +63,9 @@ CHECKS = {
     ),
     "C14": dict(
         level="other",
-        text="Decides structural clauses of independence: per-particle caches of the forcing object are not used across a length-changing operation on any path of Model.update / the warm block (one known finding); kernels index per-particle arrays by the loop variable only; no cross-particle reduction on the numeric update path; the gridded fields evolve independently of the particle list; clock, glob, RNG and set-iteration sites are enumerated and confined; per-step modules read the clock through step/dt only. Bit-for-bit equality of paired runs is not decided.",
+        text="Decides structural clauses of independence: per-particle caches of the forcing object are not used across a length-changing operation on any path of Model.update / the warm block (one known finding); kernels index per-particle arrays by the loop variable only; no cross-particle reduction on the numeric update path; the gridded fields evolve independently of the particle list; clock, glob, RNG and set-iteration sites are enumerated and confined; per-step modules read the clock through step/dt only; per-particle arrays paired element by element (arithmetic, masked stores, compiled kernels) carry the same particle-list tag (index-space domain); per-particle attributes are assigned in the step before they are read. Bit-for-bit equality of paired runs is not decided.",
         note="Trusted: role-typed call resolution; CPython ast. Known finding F8 (compactify between force.update and tracker.update) is listed in known_findings.json.",
-        technique="static analysis: effect summaries (LEN-CHANGE / CACHE-DEF / CACHE-USE) over the resolved call graph + per-index independence lint + control-dependence of field stores",
+        technique="static analysis: effect summaries (LEN-CHANGE / CACHE-DEF / CACHE-USE) over the resolved call graph + per-index independence lint + control-dependence of field stores + abstract interpretation in a particle-index-space domain + definite assignment + clock taint",
     ),
     "C15": dict(
         level="proof",
